@@ -461,7 +461,7 @@ impl Manifest {
         }
         edit_str += TX_SEPARATOR;
         edit_str += "\n";
-        let mut fout = OpenOptions::new().create(true).append(true).open(output)?;
+        let mut fout = self.poison(OpenOptions::new().create(true).append(true).open(output))?;
         self.poison(fout.write_all(edit_str.as_bytes()))?;
         self.poison(fout.flush())?;
         self.poison(fout.sync_data())?;
